@@ -259,6 +259,15 @@ func (m *roaManager) handleRTRMsg(client *roaClient, state *oc.RpkiServerState, 
 					client.pendingROAs = append(client.pendingROAs, roa)
 				}
 			} else {
+				// a withdrawal also cancels an announcement of the same
+				// record that is still waiting for End of Data
+				pending := client.pendingROAs[:0]
+				for _, p := range client.pendingROAs {
+					if !(p.Family == roa.Family && p.Network.String() == roa.Network.String() && p.Equal(roa)) {
+						pending = append(pending, p)
+					}
+				}
+				client.pendingROAs = pending
 				m.table.Delete(roa)
 			}
 		case *rtr.RTREndOfData:
